@@ -748,6 +748,32 @@ class Model(object):
         self.caps[c] = hid
         return self.expect((n, sum(900 + i for i in range(n))))
 
+    def arr_out_arg(self, n, c, base):
+        """Caller-owned memory handed back through an output argument ('int **' / 'int *&')."""
+        if self.driver == "py":
+            raise Invalid("not wrapped for python")
+        if self.driver != "c":
+            # Fortran: the documentation promises "an additional argument ... which is used to release
+            # the memory"; the caller is done with the array at the end of the op, so per the property
+            # it must have been released by then (recorded finding: no such argument is generated)
+            hid = self.take_hand("intarr")
+            del self.hands[hid]
+            return self.expect((n, sum(base + i for i in range(n))))
+        old = self.caps[c]
+        if old is not None and old in self.hands:
+            self.hit("capsule_reused_while_owning")
+            del self.hands[old]
+        hid = self.take_hand("intarr")
+        self.caps[c] = hid
+        self.hit("owned_memory_through_output_argument")
+        return self.expect((n, sum(base + i for i in range(n))))
+
+    def op_arr_pp(self, n, c, _t):
+        return self.arr_out_arg(n, c, 700)
+
+    def op_arr_gref(self, n, c, _t):
+        return self.arr_out_arg(n, c, 800)
+
     def op_arr_fill_out(self, n, _b, _t):
         return self.expect((n + 1, int(sum(0.5 * i for i in range(n + 1)) * 2)))
 
@@ -868,7 +894,7 @@ OPS_COMMON = ["item_default", "item_val", "item_delete", "item_value", "item_set
               "char_out", "char_ret", "char_inout",
               "vec_sum", "vec_iota", "vec_inc", "vec_alloc", "vec_ret", "vec_str_count",
               "arr_new", "arr_lib", "arr_new_alloc", "cap_delete", "cap_scope",
-              "arr_pat", "arr_sum", "char_grow", "ref_item", "vec_ret_d", "char_arr",
+              "arr_pat", "arr_pp", "arr_gref", "arr_sum", "char_grow", "ref_item", "vec_ret_d", "char_arr",
               "str_ptr_in", "str_val_in", "char_ret_len", "char_ret_null", "vec_iota_d", "arr_fill_out", "vec_ret_l", "vec_inout_alloc", "str_ptr_out", "item_combine", "pass_item", "vec_dot"]
 
 TEXTS = ["", " ", "a", "hello", "two words", "  lead", "trail  ", "exactly-twenty-chars", "x" * 40,
@@ -1012,7 +1038,7 @@ def gen_op(rng, model, enabled, uniq):
         return [name]
     if name == "vec_str_count":
         return [name, rng.choice([0, 1, 2, 5]), rng.choice([1, 3, 8])]
-    if name in ("arr_new", "arr_pat"):
+    if name in ("arr_new", "arr_pat", "arr_pp", "arr_gref"):
         return [name, lengths(rng), rng.randrange(NC)]
     if name == "char_grow":
         text = rng.choice(TEXTS)
@@ -1048,7 +1074,7 @@ PY_ONLY = ["box_delete", "bad_vec_sum", "bad_arg", "nomem", "bad_arr_sum", "bad_
 # char_inout: the Python wrapper hands the str object's own UTF-8 buffer to the library, which
 # upper-cases it in place and thereby corrupts interned strings of the interpreter (a C03 defect;
 # it would make later *values* wrong, so the op is not generated for Python)
-NOT_PY = ["str_final", "copy_item", "vec_inc", "vec_str_count", "cap_delete", "cap_scope", "char_inout", "char_grow", "vec_ret_d", "vec_iota_d", "vec_ret_l", "vec_inout_alloc", "pass_item"]
+NOT_PY = ["arr_pp", "arr_gref", "str_final", "copy_item", "vec_inc", "vec_str_count", "cap_delete", "cap_scope", "char_inout", "char_grow", "vec_ret_d", "vec_iota_d", "vec_ret_l", "vec_inout_alloc", "pass_item"]
 
 
 C_ONLY = ["item_release", "box_release", "hi_release", "hd_release", "cstr_ref", "cstr_lib", "cstr_owned", "cstr_in", "cstr_out", "cstr_inout"]
@@ -1072,7 +1098,7 @@ OP_NEEDS = {
     "char_ret": ("charRet",), "char_inout": ("charInout",), "vec_sum": ("vecSum",), "vec_iota": ("vecIota",),
     "vec_inc": ("vecInc",), "vec_alloc": ("vecAlloc",), "vec_ret": ("vecRet",), "vec_str_count": ("vecStrCount",),
     "arr_new": ("arrNew",), "arr_lib": ("arrLib",), "arr_new_alloc": ("arrNewAlloc",), "cap_delete": ("arrNew",),
-    "cap_scope": ("arrNew",), "arr_pat": ("arrNew", "arrNewPat"), "arr_sum": ("arrSum",), "char_grow": ("charGrow",),
+    "cap_scope": ("arrNew",), "arr_pat": ("arrNew", "arrNewPat"), "arr_pp": ("arrFillPtr",), "arr_gref": ("arrGrabRef",), "arr_sum": ("arrSum",), "char_grow": ("charGrow",),
     "vec_ret_d": ("vecRetD",), "char_arr": ("charArrLen",), "str_ptr_in": ("strPtrIn",), "str_val_in": ("strValIn",),
     "char_ret_len": ("charRetLen",), "char_ret_null": ("charRetNull",), "vec_iota_d": ("vecIotaD",),
     "arr_fill_out": ("arrFillOut",), "vec_ret_l": ("deep",), "vec_inout_alloc": ("vecInoutAlloc",),
@@ -1162,7 +1188,8 @@ def targeted_op(rng, m, enabled, uniq):
                       ["ar_set_name", s, 0, rng.choice(["a", "hello", "two words"])]]
     for c, hid in enumerate(m.caps):
         if hid is not None:
-            cands += [["cap_delete", c], ["cap_delete", c], ["arr_new", lengths(rng), c], ["arr_pat", lengths(rng), c]]
+            cands += [["cap_delete", c], ["cap_delete", c], ["arr_new", lengths(rng), c], ["arr_pat", lengths(rng), c],
+                      ["arr_pp", lengths(rng), c], ["arr_gref", lengths(rng), c]]
     cands = [c for c in cands if c[0] in enabled]
     return rng.choice(cands) if cands else None
 
@@ -1174,7 +1201,7 @@ def gen_sequence(rng, driver, length, enabled=None, have=None):
     m.hot_slots = rng.sample(range(NH), rng.choice([1, 2, 2, 3]))
     # handle ops are always available to the targeted draws, whatever the swarm subset is
     core = [o for o in ops_for(driver, have) if o in ("item_delete", "item_release", "cap_delete", "box_delete",
-                                                 "box_release", "make_item", "item_val", "arr_new", "arr_pat",
+                                                 "box_release", "make_item", "item_val", "arr_new", "arr_pat", "arr_pp", "arr_gref",
                                                  "hi_new", "hd_new", "hi_delete", "hd_delete", "hi_release", "hd_release",
                                                  "ar_new", "ar_set_vals", "ar_total", "ar_drop")]
     counter = [0]
